@@ -63,6 +63,18 @@ def wrap_commands(drv, pre: Optional[Callable] = None,
     drv._run = _run
 
 
+def return_polls_promptly(drv) -> None:
+    """after_loop hook: a jobs-poll command (here only the restart poll of
+    every active task) launched in one main-loop iteration returns in the
+    next, i.e. before any job message emitted after the poll looked at the
+    job is processed.  A poll result that comes back after newer messages
+    have been processed is believed by the scheduler - the recorded C09/C10
+    finding (late poll result) - and is kept out of these schedules."""
+    for it in drv.sim.pending_cmds():
+        if it.get('kind') == 'jobs-poll':
+            drv.sim.mark_returned(it)
+
+
 def db_path(sim) -> str:
     return str(sim.run_dir / '.service' / 'db')
 
